@@ -7,6 +7,22 @@ fn main() {
         eprintln!("usage: vh <Cxx> [--tier quick|thorough] [--replay FILE] [--strict]");
         std::process::exit(2);
     }
+    if args[1] == "debug-check" {
+        // vh debug-check <schema file> <operation file>...
+        let sfiles = vec![(std::path::PathBuf::from(&args[2]), std::fs::read_to_string(&args[2]).unwrap())];
+        let ofiles: Vec<_> = args[3..].iter().map(|p| (std::path::PathBuf::from(p), std::fs::read_to_string(p).unwrap())).collect();
+        let detail = serde_json::json!(null);
+        install_panic_hook();
+        let ss = vh::pipeline::schema_stage(&sfiles, &detail).unwrap();
+        println!("schema diagnostics: {:?}", ss.all_diags());
+        if let Some(doc) = &ss.doc {
+            match vh::pipeline::op_stage(doc, 1, &ofiles, &detail) {
+                Ok(os) => println!("operation diagnostics: {:#?}", os.all_diags()),
+                Err(f) => println!("operation stage failed: {} {}", f.signature, f.message),
+            }
+        }
+        return;
+    }
     let prop = args[1].to_uppercase();
     let env = Env::from_args(&prop, &args[2..]);
     install_panic_hook();
@@ -16,6 +32,7 @@ fn main() {
         prop, env.tier, env.seed, env.threads
     );
     let code = match prop.as_str() {
+        "C03" => props::c03::run(&env),
         "C04" => props::c04::run(&env),
         "C07" => props::c07::run(&env),
         "C11" => props::c11::run(&env),
